@@ -19,9 +19,11 @@ EPS32 = R.EPS32
 TOL_RES = 1e-8      # HMF: component-wise relative residual of a sub-problem's normal equations
 TOL_MONO = 1e-9     # HMF: relative increase of the objective tolerated as rounding
 TOL_RMS = 1e-12     # HMF: |rms(g_k) - 1|
+MONO_EVAL = 100.0   # HMF: multiple of the first-order bound on the rounding error of evaluating the objective (high S/N)
 TOL_PCOMP = 1e-10   # pcomp: reconstruction / eigenvalues, relative to the largest matrix entry
 TOL_SUM = 1e-12     # pcomp: |sum(variance) - 1|
 TOL_PROJ = 1e-5     # pca_solve: relative normal-equation residual (eigenspectra are returned as float32)
+CHI2_SELF = 30.0    # computechi2: multiple of the residual-evaluation bound for "chi2 is the chi-square of the returned fit" (clean code <= 0.8 % of it)
 CHI2_SAFETY = 3e3   # computechi2: multiple of the first-order error bound eps*cond*|mm^-1||rhs|
 COND_MAX = 1e6      # computechi2: generated cond(A^T W A)
 
@@ -38,6 +40,7 @@ class HMFMonitor:
     def reset_run(self, nonneg_data=False):
         self.failure = None      # (clause, msg, detail) of the first rejected condition of this solve()
         self.last_chi2 = None    # chi^2 of a.g after the most recent factor update
+        self.last_err = 0.0      # bound on the rounding error of evaluating it
         self.nonneg_data = nonneg_data
         self.updates = {'astep': 0, 'gstep': 0, 'astepnn': 0, 'gstepnn': 0, 'normbase': 0}
 
@@ -63,14 +66,20 @@ def _eps_of(h):
 
 
 def _objective(h, a, g):
+    """(chi^2, chi^2 + penalty, bound on the rounding error of evaluating them) - independent of HMF.badness()"""
     c = R.hmf_chi2(h.spectra, h.invvar, a, g)
-    return c, c + R.hmf_penalty(g, _eps_of(h))
+    return c, c + R.hmf_penalty(g, _eps_of(h)), R.hmf_objective_eval_error(h.spectra, h.invvar, a, g, _eps_of(h))
 
 
-def _rel_increase(before, after):
-    if not (np.isfinite(before) and np.isfinite(after)):
+def _increase(name, before, after, err):
+    """objective increase as a fraction of what rounding may produce: TOL_MONO relative + MONO_EVAL x evaluation bound"""
+    if not (np.isfinite(before) and np.isfinite(after) and np.isfinite(err)):
         return float('inf')
-    return (after - before) / max(abs(before), np.finfo(float).tiny)
+    allow = TOL_MONO * abs(before) + MONO_EVAL * err + np.finfo(float).tiny
+    ratio = (after - before) / allow
+    MON.worst(name + '/allowed', max(ratio, 0.0))
+    MON.worst(name + '/evalbound', max((after - before) / (err + np.finfo(float).tiny), 0.0))
+    return ratio
 
 
 # ---- snapshot -----------------------------------------------------------------------------------
@@ -94,10 +103,9 @@ def chi2_not_increased_since_last_update(self):
     MON.seen('chi2_not_increased_since_last_update')
     if MON.last_chi2 is None:
         return True
-    c = R.hmf_chi2(self.spectra, self.invvar, self.a, self.g)
-    inc = _rel_increase(MON.last_chi2, c)
-    MON.worst('chi2_increase_between_updates', max(inc, 0.0))
-    return inc <= TOL_MONO or MON.reject(
+    c, _, err = _objective(self, np.asarray(self.a, dtype=np.float64), np.asarray(self.g, dtype=np.float64))
+    inc = _increase('chi2_increase_between_updates', MON.last_chi2, c, err + MON.last_err)
+    return inc <= 1.0 or MON.reject(
         'chi2-monotone', 'chi-square of a.g rose from %.17g (after the last factor update) to %.17g before the next one '
         '(reorder/normalisation must not change the model)' % (MON.last_chi2, c))
 
@@ -120,12 +128,11 @@ def astep_is_weighted_lsq_optimum(self, result, OLD):
 def astep_does_not_increase_badness(self, result, OLD):
     MON.seen('astep_does_not_increase_badness')
     a0, g0 = OLD.factors
-    _, b0 = _objective(self, a0, g0)
-    c1, b1 = _objective(self, np.asarray(result, dtype=np.float64), g0)
-    MON.last_chi2 = c1
-    inc = _rel_increase(b0, b1)
-    MON.worst('astep_badness_increase', max(inc, 0.0))
-    return inc <= TOL_MONO or MON.reject('chi2-monotone', 'astep raised the badness from %.17g to %.17g' % (b0, b1))
+    _, b0, e0 = _objective(self, a0, g0)
+    c1, b1, e1 = _objective(self, np.asarray(result, dtype=np.float64), g0)
+    MON.last_chi2, MON.last_err = c1, e1
+    inc = _increase('astep_badness_increase', b0, b1, e0 + e1)
+    return inc <= 1.0 or MON.reject('chi2-monotone', 'astep raised the badness from %.17g to %.17g' % (b0, b1))
 
 
 # ---- gstep ----------------------------------------------------------------------------------------
@@ -145,12 +152,11 @@ def gstep_solves_per_pixel_equations(self, result, OLD):
 def gstep_does_not_increase_badness(self, result, OLD):
     MON.seen('gstep_does_not_increase_badness')
     a0, g0 = OLD.factors
-    _, b0 = _objective(self, a0, g0)
-    c1, b1 = _objective(self, a0, np.asarray(result, dtype=np.float64))
-    MON.last_chi2 = c1
-    inc = _rel_increase(b0, b1)
-    MON.worst('gstep_badness_increase', max(inc, 0.0))
-    return inc <= TOL_MONO or MON.reject(
+    _, b0, e0 = _objective(self, a0, g0)
+    c1, b1, e1 = _objective(self, a0, np.asarray(result, dtype=np.float64))
+    MON.last_chi2, MON.last_err = c1, e1
+    inc = _increase('gstep_badness_increase', b0, b1, e0 + e1)
+    return inc <= 1.0 or MON.reject(
         'chi2-monotone', 'gstep (epsilon=%r) raised the badness from %.17g to %.17g' % (self.epsilon, b0, b1))
 
 
@@ -173,12 +179,11 @@ def astepnn_keeps_coefficients_nonnegative(self, result):
 def astepnn_does_not_increase_chi2(self, result, OLD):
     MON.seen('astepnn_does_not_increase_chi2')
     a0, g0 = OLD.factors
-    _, b0 = _objective(self, a0, g0)
-    c1, b1 = _objective(self, np.asarray(result, dtype=np.float64), g0)
-    MON.last_chi2 = c1
-    inc = _rel_increase(b0, b1)
-    MON.worst('astepnn_badness_increase', max(inc, 0.0))
-    return inc <= TOL_MONO or MON.reject('chi2-monotone', 'astepnn raised chi-square from %.17g to %.17g' % (b0, b1))
+    _, b0, e0 = _objective(self, a0, g0)
+    c1, b1, e1 = _objective(self, np.asarray(result, dtype=np.float64), g0)
+    MON.last_chi2, MON.last_err = c1, e1
+    inc = _increase('astepnn_badness_increase', b0, b1, e0 + e1)
+    return inc <= 1.0 or MON.reject('chi2-monotone', 'astepnn raised chi-square from %.17g to %.17g' % (b0, b1))
 
 
 def gstepnn_keeps_components_nonnegative(self, result):
@@ -194,12 +199,11 @@ def gstepnn_keeps_components_nonnegative(self, result):
 def gstepnn_does_not_increase_badness(self, result, OLD):
     MON.seen('gstepnn_does_not_increase_badness')
     a0, g0 = OLD.factors
-    _, b0 = _objective(self, a0, g0)
-    c1, b1 = _objective(self, a0, np.asarray(result, dtype=np.float64))
-    MON.last_chi2 = c1
-    inc = _rel_increase(b0, b1)
-    MON.worst('gstepnn_badness_increase', max(inc, 0.0))
-    return inc <= TOL_MONO or MON.reject(
+    _, b0, e0 = _objective(self, a0, g0)
+    c1, b1, e1 = _objective(self, a0, np.asarray(result, dtype=np.float64))
+    MON.last_chi2, MON.last_err = c1, e1
+    inc = _increase('gstepnn_badness_increase', b0, b1, e0 + e1)
+    return inc <= 1.0 or MON.reject(
         'chi2-monotone', 'gstepnn (epsilon=%r) raised the badness from %.17g to %.17g' % (self.epsilon, b0, b1))
 
 
@@ -273,10 +277,10 @@ def _spectral_matrix(g, N, M, K, nonneg, maskfrac, junk):
         comps = np.abs(comps) + 0.05
         coef = np.abs(coef) + 0.05
     coef *= 10.0 ** g.uniform(-0.5, 0.5, size=(1, K))
-    scale = 10.0 ** g.uniform(-1, 2)
+    scale = 10.0 ** (g.uniform(-1, 2) if g.uniform() < 0.8 else g.uniform(-5, 5))      # data in other units
     clean = coef @ comps
     amp = np.sqrt(np.mean(clean ** 2))
-    noise = 10.0 ** g.uniform(-2.5, -0.5)
+    noise = 10.0 ** (g.uniform(-2.5, -0.5) if g.uniform() < 0.85 else g.uniform(-6.5, -2.5))   # S/N up to 3e6
     sig = noise * amp * g.uniform(0.5, 2.0, size=(N, M))
     s = (clean + sig * g.normal(size=(N, M))) * scale / amp
     w = 1.0 / (sig * scale / amp) ** 2
@@ -330,6 +334,10 @@ class C15(Check):
             'different-seed object, random programs of up to 5 objects) - every solve of an equal-seed object must be bitwise identical; '
             'computechi2/pcomp: second object of the same input read in the opposite order and all attributes re-read after an object '
             'of different input was built and read; pca_solve called again after a call on different data; '
+            'chi2_highsnr: |b| = 1e3..1e8 sigma (float32: 10^2.5..10^5) on random / polynomial / pixel-number polynomial (<= 1000 pixels, cond <= 1e13) / '
+            'continuum+line bases, data in units 1e-6..1e6, incl. all-float32 input; reported chi2 compared with sum w (b - returned yfit)^2 '
+            'within 30 x the residual-evaluation bound; HMF data with S/N up to 3e6 and units 1e-5..1e5, HMF.badness() compared with the '
+            'chi-square of the returned factors; standing sub-classes: seed=0, epsilon=0.0, 2-variable pcomp; '
             'pca_solve on float32 rank-K+noise spectra with masked pixels and fully masked columns, nkeep 1-4, niter 1-8, '
             'maxiter 0-2.  Non-trivial: computechi2 with >= 2 columns and >= 1 zero weight; pcomp with >= 2 variables; '
             'HMF with masked pixels and K >= 2; pca_solve with masked pixels and nkeep >= 2; distinct by hash of the input.')
@@ -361,6 +369,7 @@ class C15(Check):
         'hmf_order_equal_seed_comparisons', 'hmf_order_resolves_of_one_object', 'hmf_order:build2_solve2', 'hmf_order:draw_between',
         'hmf_order:solve_twice', 'hmf_order:interleave_other_seed', 'hmf_order:reseed_between', 'hmf_order:random_program',
         'stale_chi2_rereads', 'stale_pcomp_rereads', 'stale_pca_recalls',
+        'pcomp_two_variable_cases', 'hmf_seed_zero_cases', 'chi2_cancellation_would_show', 'chi2_cancellation_would_show_float32', 'hmf_reported_badness_checked',
         'chi2_zero_weight_cases', 'chi2_discriminating', 'pcomp_wide_cases', 'pca_projections', 'pca_masked_columns',
     )
     REQUIRED_REACH = {'spec1d.HMF.astep': 1.0, 'spec1d.HMF.gstep': 1.0, 'spec1d.HMF.astepnn': 1.0, 'spec1d.HMF.gstepnn': 1.0,
@@ -409,6 +418,7 @@ class C15(Check):
             'chi2_poly': 250 if q else 4000,
             'chi2_pixelpoly': 200 if q else 3000,
             'chi2_float32': 250 if q else 4000,
+            'chi2_highsnr': 300 if q else 5000,
             'pcomp_tall': 700 if q else 10000,
             'pcomp_wide': 400 if q else 6000,
             'hmf_exact': 100 if q else 1600,
@@ -431,7 +441,67 @@ class C15(Check):
             return self._gen_hmf(cls, rng, g)
         return self._gen_pca(cls, rng, g)
 
+    def _gen_chi2_highsnr(self, rng, g):
+        """Fits that are very good compared with the size of the data (|b| = 1e3..1e8 sigma; float32: 10^2.5..10^5 sigma),
+        on random, polynomial and pixel-number polynomial bases (up to 1000 pixels), data in arbitrary units."""
+        for attempt in range(30):
+            dts = rng.choice([['f8', 'f8', 'f8'], ['f8', 'f8', 'f8'], ['f8', 'f8', 'f8'], ['f8', 'f4', 'f4'], ['f4', 'f4', 'f4']])
+            single = dts[0] == 'f4'
+            basis = rng.choice(['random', 'poly', 'pixelpoly', 'pixelpoly', 'lines'])
+            if single and basis == 'pixelpoly':
+                basis = 'poly'
+            cond_max = COND_MAX
+            if basis == 'pixelpoly':
+                n = int(g.integers(100, 1001))
+                m = int(g.integers(2, 4))
+                A = np.vander(np.arange(n, dtype='f8'), m, increasing=True)
+                cond_max = 1e13
+            elif basis == 'poly':
+                n = int(g.integers(20, 401))
+                m = int(g.integers(1, 4 if single else 6))
+                A = np.vander(np.linspace(-1, 1, n), m, increasing=True)
+            elif basis == 'lines':                       # continuum + emission lines, like the demo of the pipeline
+                n = int(g.integers(50, 401))
+                m = int(g.integers(2, 5))
+                xx = np.linspace(0, 1, n)
+                A = np.ones((n, m))
+                for k in range(1, m):
+                    A[:, k] = np.exp(-0.5 * ((xx - g.uniform(0.1, 0.9)) / g.uniform(0.01, 0.05)) ** 2)
+            else:
+                n = int(g.integers(10, 201))
+                m = int(g.integers(1, 4 if single else 9))
+                A = g.normal(size=(n, m)) * 10.0 ** g.uniform(-1, 1, size=(1, m))
+            if single:
+                cond_max = 1e3
+            sigma = g.uniform(0.5, 2.0, n)
+            snr = 10.0 ** (g.uniform(2.5, 5) if dts[1] == 'f4' else g.uniform(3, 8))
+            clean = A @ (g.normal(size=m) + rng.choice([0.0, 2.0]))
+            clean = clean / np.sqrt(np.mean(clean ** 2)) * snr
+            unit = 10.0 ** (g.uniform(-6, 6) if rng.random() < 0.5 else 0.0)
+            if dts[1] == 'f4':
+                unit = 10.0 ** g.uniform(-3, 3)
+            b = (clean + sigma * g.normal(size=n)) * unit
+            sq = 1.0 / (sigma * unit)
+            zero = g.uniform(size=n) < rng.choice([0.0, 0.0, 0.1, 0.3])
+            if n - zero.sum() < m + 2:
+                zero[:] = False
+            sq = np.where(zero, 0.0, sq)
+            A = A.astype(dts[0]).astype('f8')
+            b = b.astype(dts[1]).astype('f8')
+            sq = sq.astype(dts[2]).astype('f8')
+            sv = np.linalg.svd(A * sq[:, None], compute_uv=False)
+            if sv[-1] > 0 and (sv[0] / sv[-1]) ** 2 <= cond_max:
+                break
+        else:
+            return None
+        order = ['acoeff', 'chi2', 'yfit', 'dof', 'covar', 'var']
+        rng.shuffle(order)
+        return {'kind': 'chi2', 'cls': 'chi2_highsnr', 'basis': basis, 'snr': snr, 'cond_max': cond_max * 10, 'A': _lists(A), 'b': _lists(b),
+                'sqivar': _lists(sq), 'dtypes': dts, 'order': order}
+
     def _gen_chi2(self, cls, rng, g):
+        if cls == 'chi2_highsnr':
+            return self._gen_chi2_highsnr(rng, g)
         for attempt in range(30):
             n = int(g.integers(10, 201))
             m = int(g.integers(1, 9))
@@ -481,7 +551,7 @@ class C15(Check):
         return {'kind': 'chi2', 'cls': cls, 'A': _lists(A), 'b': _lists(b), 'sqivar': _lists(sq), 'dtypes': dts, 'order': order}
 
     def _gen_pcomp(self, cls, rng, g):
-        m = int(g.integers(2, 13))
+        m = 2 if rng.random() < 0.12 else int(g.integers(2, 13))      # the 2-variable case is a standing sub-class
         if cls == 'pcomp_wide':
             n = int(g.integers(2, m + 1))
         else:
@@ -531,7 +601,7 @@ class C15(Check):
         else:
             eps = rng.choice([None, None, 0.0, 0.1, 10.0, 1e3])
         return {'kind': 'hmf', 'spectra': _lists(s), 'invvar': _lists(w), 'K': K, 'n_iter': rng.randint(2, 8),
-                'seed': rng.randint(0, 2 ** 31 - 1), 'epsilon': eps, 'nonnegative': nonneg, 'masked_edges': edges,
+                'seed': 0 if rng.random() < 0.12 else rng.randint(0, 2 ** 31 - 1), 'epsilon': eps, 'nonnegative': nonneg, 'masked_edges': edges,
                 'global_seeds': [rng.randint(0, 2 ** 31 - 1), rng.randint(0, 2 ** 31 - 1)]}
 
     ORDER_PATTERNS = ('build2_solve2', 'draw_between', 'solve_twice', 'interleave_other_seed', 'reseed_between', 'random_program')
@@ -554,7 +624,7 @@ class C15(Check):
             if edges[0]:
                 w[:, :edges[0]] = 0
             w[:, M - edges[1]:] = 0
-        seed = rng.randint(0, 2 ** 31 - 1)
+        seed = 0 if rng.random() < 0.2 else rng.randint(0, 2 ** 31 - 1)      # 0 is falsy but a perfectly good seed
         other = rng.randint(0, 2 ** 31 - 1)
         while other == seed:
             other = rng.randint(0, 2 ** 31 - 1)
@@ -633,7 +703,7 @@ class C15(Check):
         n, m = A.shape
         ref = R.wls(A, b, sq)
         cond = (ref['smax'] / ref['smin']) ** 2
-        if not cond <= (1e12 if case.get('cls') == 'chi2_pixelpoly' else COND_MAX * 10):
+        if not cond <= case.get('cond_max', 1e12 if case.get('cls') == 'chi2_pixelpoly' else COND_MAX * 10):
             out.undecide()
             return
         out.count('chi2_cond_above_1e8', cond > 1e8)
@@ -672,6 +742,28 @@ class C15(Check):
         self._margin('chi2_chi2_err/tol', cerr / ctol if ctol > 0 else 0.0)
         out.expect(cerr <= ctol, 'chi2-chi2', 'chi2 %.17g differs from weighted sum of squared residuals %.17g (tolerance %.3g)' % (
             float(got['chi2']), ref['chi2'], ctol))
+        # the reported chi-square must be the chi-square of the reported fit: sum w (b - yfit)^2 evaluated here in float64.
+        # Tolerance from the residual evaluation itself: each weighted residual may carry dr = (m+2) u (sq |A||x| + |b~|)
+        # (+ u_b |b~| when b~ = b*sqivar is formed in single precision), i.e. sum 2|r| dr + dr^2 ~ u S chi2 at
+        # signal-to-noise S - NOT a fraction of |b~|^2 = S^2 chi2, which is what a cancellation identity loses.
+        if ok and yf.shape == (n,):
+            A8, b8, s8 = A.astype('f8'), b.astype('f8'), sq.astype('f8')
+            bt = np.abs(b8 * s8)
+            r = s8 * (b8 - yf)
+            cself = float(np.sum(r * r))
+            dr = (m + 2) * eps_w * (s8 * (np.abs(A8) @ np.abs(x)) + bt) + eps_b * bt
+            usum = (4 + np.log2(n)) * max(eps_w, eps_b, EPS)
+            stol = CHI2_SELF * float(np.sum(2 * np.abs(r) * dr + dr * dr)) + usum * cself + np.finfo(float).tiny
+            serr = abs(float(got['chi2']) - cself)
+            self._margin('chi2_selfconsistency_err/tol', serr / stol)
+            out.expect(serr <= stol, 'chi2-of-reported-fit',
+                       'chi2 = %.17g but the weighted squared residuals of the returned yfit sum to %.17g (difference %.3g, allowed %.3g; '
+                       '|b~|^2 = %.3g)' % (float(got['chi2']), cself, serr, stol, float(np.sum(bt * bt))))
+            eps_id = float(np.finfo(np.result_type(b.dtype, sq.dtype)).eps)
+            if eps_id * float(np.sum(bt * bt)) > 10 * stol:
+                out.count('chi2_cancellation_would_show')       # an identity b.b - x.M^T b would be off by more than 10 tolerances
+                if eps_id > EPS:
+                    out.count('chi2_cancellation_would_show_float32')
         # degrees of freedom
         out.expect(int(got['dof']) == ref['dof'], 'chi2-dof', 'dof %r != #(sqivar > 0) - M = %d' % (got['dof'], ref['dof']))
         # covariance and variances
@@ -773,6 +865,8 @@ class C15(Check):
             out.count('stale_pcomp_rereads')
         if n <= m:
             out.count('pcomp_wide_cases')
+        if m == 2:
+            out.count('pcomp_two_variable_cases')
         out.nontrivial = m >= 2
         out.info.update(n=n, m=m, covariance=cov, standardize=std, smallest_eigenvalue=float(ev.min()) if ok else None)
 
@@ -824,13 +918,24 @@ class C15(Check):
                 MON.worst('rms_deviation', dev)
                 out.expect(dev <= TOL_RMS, 'unit-rms', 'returned components do not have unit rms: max |rms-1| = %.3g' % dev)
                 e0, e1 = case.get('masked_edges', [0, 0])
-                cfin = R.hmf_chi2(s0[:, e0:M - e1], w0[:, e0:M - e1], a, gg)      # the trimmed columns carry no weight
+                st, wt = s0[:, e0:M - e1], w0[:, e0:M - e1]                      # the trimmed columns carry no weight
+                cfin = R.hmf_chi2(st, wt, a, gg)
+                efin = R.hmf_objective_eval_error(st, wt, a, gg, eps)
                 if MON.last_chi2 is not None:
-                    inc = _rel_increase(MON.last_chi2, cfin)
-                    MON.worst('chi2_increase_between_updates', max(inc, 0.0))
-                    out.expect(inc <= TOL_MONO, 'chi2-monotone',
+                    inc = _increase('chi2_increase_between_updates', MON.last_chi2, cfin, efin + MON.last_err)
+                    out.expect(inc <= 1.0, 'chi2-monotone',
                                'chi-square of the returned factors (%.17g) exceeds the value after the last update (%.17g)' % (
                                    cfin, MON.last_chi2))
+                # the chi-square HMF itself reports must be the chi-square of the factors it returns (no short-cut identity)
+                if np.shape(h.spectra) == st.shape:
+                    want = cfin + R.hmf_penalty(gg, eps)
+                    rep_b = float(h.badness())
+                    allow = TOL_MONO * abs(want) + MONO_EVAL * efin
+                    MON.worst('reported_badness_error/allowed', abs(rep_b - want) / allow)
+                    out.expect(abs(rep_b - want) <= allow, 'hmf-badness',
+                               'HMF.badness() = %.17g but chi-square (+ penalty) of the returned factors is %.17g (allowed %.3g)' % (
+                                   rep_b, want, allow))
+                    out.count('hmf_reported_badness_checked')
                 if nonneg:
                     out.expect(_nonneg_finite(a) and _nonneg_finite(gg), 'nonnegative',
                                'returned factors of the non-negative mode contain negative values: min a %.3g, min g %.3g' % (
@@ -852,6 +957,8 @@ class C15(Check):
             np.random.set_state(state)
         (a1, g1, u1, c1), (a2, g2, u2, c2) = results
         out.count('hmf_same_seed_pairs')
+        if case['seed'] == 0 and K >= 2:
+            out.count('hmf_seed_zero_cases')
         same = a1.tobytes() == a2.tobytes() and g1.tobytes() == g2.tobytes()
         out.expect(same, 'same-seed', 'two solves with seed=%d gave different results: max |da| = %.3g, max |dg| = %.3g' % (
             case['seed'], float(np.max(np.abs(a1 - a2))), float(np.max(np.abs(g1 - g2)))))
@@ -928,6 +1035,8 @@ class C15(Check):
         finally:
             np.random.set_state(state)
         out.count('hmf_order_equal_seed_comparisons', ncmp)
+        if case['seed'] == 0 and K >= 2:
+            out.count('hmf_seed_zero_cases')
         out.count('hmf_order:' + case['pattern'])
         out.nontrivial = K >= 2 and ncmp >= 1
         out.info.update(N=N, M=M, K=K, pattern=case['pattern'], ops=case['ops'], comparisons=ncmp)
@@ -1009,7 +1118,7 @@ class C15(Check):
                     worst[k] = v
         return {'worst_observed': {k: worst[k] for k in sorted(worst)},
                 'worst_observed_note': 'err/tol entries are fractions of the tolerance used (1.0 = at tolerance); hmf_* are raw values '
-                                       '(tolerances: residual %g, objective increase %g, rms %g)' % (TOL_RES, TOL_MONO, TOL_RMS)}
+                                       '(tolerances: residual %g, objective increase %g relative + %g x evaluation-error bound, rms %g)' % (TOL_RES, TOL_MONO, MONO_EVAL, TOL_RMS)}
 
 
 CHECK = C15()
